@@ -26,6 +26,7 @@ fn scribble<const N: usize>(rig: &Rig<N>, ctx: &mut Ctx) {
 fn adversarial<const N: usize>(ctx: &mut Ctx, flags: u8, start: u16, nops: usize, scrib: bool) {
     let mut rig = match Rig::<N>::new(ctx, flags & 1 != 0, flags & 2 != 0, false, start) { Some(r) => r, None => return };
     rig.quiet_visible = scrib;
+    rig.honest = false;
     // the device does not follow the protocol here: the store-level monitor of C02 (which reads what an honest
     // device would find in the driver-written areas) does not apply
     C02.with(|c| *c.borrow_mut() = None);
